@@ -228,7 +228,7 @@ func printLoad(rng *rand.Rand, cfg gmars.SimulatorConfig, w gmars.WarriorData, p
 			case 2:
 				lines = append(lines, "; a comment, with a comma; and more")
 			case 3:
-				lines = append(lines, p(0)+";indented comment")
+				lines = append(lines, p(1)+[]string{";indented comment", ";; banner ;;", "; a, b ; c, d ; e"}[rng.Intn(3)])
 			case 4:
 				lines = append(lines, ";redcode")
 			}
@@ -256,7 +256,7 @@ func printLoad(rng *rand.Rand, cfg gmars.SimulatorConfig, w gmars.WarriorData, p
 		l := p(0) + cs(op) + p(1) + in.AMode.String() + p(1) + fieldStr(rng, uint64(in.A), m, perturb) + p(0) + "," + p(1) +
 			in.BMode.String() + p(1) + fieldStr(rng, uint64(in.B), m, perturb) + p(0)
 		if perturb && rng.Intn(6) == 0 {
-			l += p(1) + "; trailing"
+			l += p(1) + []string{"; trailing", ";a;b", "; x, y ; z"}[rng.Intn(3)]
 		}
 		lines = append(lines, l)
 	}
